@@ -36,6 +36,31 @@ Proof. eapply Rle_trans; [apply U_big |]. lra. Qed.
 Lemma fln2_spec : Rabs (IZR fln2 / U - ln 2) <= 45 / U.
 Proof. rewrite U_val. unfold fln2. interval with (i_prec 220). Qed.
 
+Lemma div_bound a b c w : 0 < w -> - c <= a - w * b <= c -> - (c / w) <= a / w - b <= c / w.
+Proof.
+  intros Hw H. assert (E : a / w - b = (a - w * b) * / w) by (field; lra). rewrite E.
+  assert (0 < / w) by (apply Rinv_0_lt_compat, Hw). unfold Rdiv. split; nra.
+Qed.
+
+Lemma assemble a P L M w : - (104 / w) <= a / w - P <= 104 / w -> - / w <= L / 2 - P <= / w ->
+  0 <= M - L <= 16 * / w -> - (226 / w) <= 2 * a / w - M <= 226 / w.
+Proof.
+  intros H1 H2 H3. unfold Rdiv in *. set (x := a * / w) in *.
+  replace (2 * a * / w) with (2 * x) by (unfold x; ring). lra.
+Qed.
+
+Lemma ln_assemble a e f w m l c1 c2 : 0 < w -> - (c1 / w) <= a / w - m <= c1 / w -> Rabs (f / w - l) <= c2 / w ->
+  Rabs ((a + e * f) / w - (m + e * l)) <= (c1 + c2 * Rabs e) / w.
+Proof.
+  intros Hw H1 H2. replace ((a + e * f) / w - (m + e * l)) with ((a / w - m) + e * (f / w - l)) by (field; lra).
+  apply Rabs_le_iff in H2. assert (Hi : 0 < / w) by (apply Rinv_0_lt_compat, Hw).
+  set (t := f / w - l) in *. set (c := a / w - m) in *.
+  assert (H0 : 0 <= c2 / w) by lra.
+  assert (He : - (Rabs e * (c2 / w)) <= e * t <= Rabs e * (c2 / w)).
+  { unfold Rabs. destruct (Rcase_abs e); split; nra. }
+  apply Rabs_le_iff. unfold Rdiv in *. split; lra.
+Qed.
+
 (** ** ln((1+z)/(1-z)) under a perturbation of z *)
 Lemma phi_perturb z1 z2 : - (1 / 2) <= z1 -> z1 <= z2 -> z2 <= 1 / 2 ->
   0 <= ln ((1 + z2) / (1 - z2)) - ln ((1 + z1) / (1 - z1)) <= 8 * (z2 - z1).
@@ -122,14 +147,14 @@ Proof.
     - nra.
     - rewrite EzR. nra. }
   clear HA. replace (INR 52) with 52 in HA' by (rewrite INR_IZR_INZ; reflexivity).
-  set (A := gatanh fp 52 1 z2 z z) in *.
+  set (A := gatanh fp 52 1 z2 z z) in *. clearbody A.
   assert (Esc : Ratanh 52 1 (zR * zR) (IZR z) (IZR z) = U * atanh_poly 52 zR).
   { rewrite EzR. replace (zR * U) with (U * zR) by ring. rewrite Ratanh_scale, Ratanh_poly. reflexivity. }
   rewrite Esc in HA'.
   (* remainder *)
-  pose proof (atanh_remainder 52 zR (35 / 100) ltac:(lra) HzR35) as Hrem.
-  assert (Hnum : 35 / 100 * (35 / 100 * (35 / 100)) ^ 53 / (1 - 35 / 100 * (35 / 100)) <= / U).
-  { rewrite U_val. interval with (i_prec 200). }
+  assert (Hrem : Rabs (atanh_rem 52 zR) <= / U).
+  { eapply Rle_trans; [apply (atanh_remainder 52 zR (35 / 100)); [lra | exact HzR35] |].
+    rewrite U_val. interval with (i_prec 200). }
   apply Rabs_le_iff in Hrem. unfold atanh_rem in Hrem.
   rewrite ln_ratio in Hrem by lra.
   set (L := ln ((1 + zR) / (1 - zR))) in *.
@@ -140,13 +165,10 @@ Proof.
   (* assembly *)
   rewrite mult_IZR.
   set (P := atanh_poly 52 zR) in *.
-  assert (HAU : - (104 / U) <= IZR A / U - P <= 104 / U).
-  { unfold Rdiv. split.
-    - apply Rmult_le_reg_r with U; [lra |].
-      replace ((IZR A * / U - P) * U) with (IZR A - U * P) by (field; lra). nra.
-    - apply Rmult_le_reg_r with U; [lra |].
-      replace ((IZR A * / U - P) * U) with (IZR A - U * P) by (field; lra). nra. }
-  unfold Rdiv in *. split; nra.
+  assert (HAU : - (104 / U) <= IZR A / U - P <= 104 / U) by (apply div_bound; lra).
+  assert (Hrem' : - / U <= L / 2 - P <= / U) by lra.
+  assert (Hphi' : 0 <= ln mR - L <= 16 * / U) by lra.
+  exact (assemble (IZR A) P L (ln mR) U HAU Hrem' Hphi').
 Qed.
 
 (** ** the reduction *)
@@ -197,15 +219,8 @@ Proof.
   pose proof (ln_core (to_fix (Qln_m x)) mR Hm Hmf) as Hc. cbv zeta in Hc.
   set (A2 := (2 * fatanh ((to_fix (Qln_m x) - fp1) * fp1 / (to_fix (Qln_m x) + fp1)) 52)%Z) in *.
   rewrite plus_IZR, mult_IZR, Hln.
-  pose proof fln2_spec as Hl2. apply Rabs_le_iff in Hl2.
-  set (l2 := IZR NumQ.fln2 / U) in *.
-  replace ((IZR A2 + IZR e * IZR NumQ.fln2) / U - (ln mR + IZR e * ln 2))
-    with ((IZR A2 / U - ln mR) + IZR e * (l2 - ln 2)) by (unfold l2; field; lra).
   unfold eps_ln. rewrite <- U_val, abs_IZR.
-  assert (He : - (Rabs (IZR e) * (45 / U)) <= IZR e * (l2 - ln 2) <= Rabs (IZR e) * (45 / U)).
-  { assert (H45 : 0 <= 45 / U) by (unfold Rdiv; nra).
-    unfold Rabs. destruct (Rcase_abs (IZR e)); split; nra. }
-  apply Rabs_le_iff. unfold Rdiv in *. split; nra.
+  apply ln_assemble; [exact HU | exact Hc | exact fln2_spec].
 Qed.
 
 (** the reduction exponent of an argument in [2^-B, 2^B] *)
@@ -255,6 +270,9 @@ Proof.
     rewrite Rmult_assoc, Rinv_l by lra. rewrite Rmult_1_l, Rmult_1_r. apply IZR_lt. lia.
 Qed.
 
+Lemma ln_le' x y : 0 < x -> x <= y -> ln x <= ln y.
+Proof. intros Hx [H | ->]; [left; apply ln_increasing; assumption | lra]. Qed.
+
 (** ** the [nln] slot of NumD (and of NumDF, which has the same slot) *)
 Theorem NumD_nln_spec : forall x : D,
   (/ inject_Z (2 ^ 1024) <= D2Q x)%Q -> (D2Q x <= inject_Z (2 ^ 1024))%Q ->
@@ -267,18 +285,19 @@ Proof.
   { apply Qle_Rle in Hlo, Hhi. rewrite Q2R_inject_Z in Hhi.
     rewrite Q2R_inv, Q2R_inject_Z in Hlo.
     2:{ intro H. apply Qeq_eqR in H. rewrite Q2R_inject_Z, RMicromega.Q2R_0 in H. apply eq_IZR in H. lia. }
-    rewrite <- (pow_IZR 2 1024). split; assumption. }
+    assert (E : 2 ^ 1024 = IZR (2 ^ 1024)) by (rewrite pow_IZR; reflexivity).
+    rewrite E. split; assumption. }
   assert (Hpos : 0 < Q2R (D2Q x)).
   { eapply Rlt_le_trans; [| apply Hx]. apply Rinv_0_lt_compat, pow_lt. lra. }
   assert (Hln : - 710 <= ln (Q2R (D2Q x)) <= 710).
-  { assert (Hl2 : 1024 * ln 2 <= 710) by interval.
+  { assert (Hl2 : 1024 * ln 2 <= 710) by (interval with (i_prec 40)).
     assert (E : ln (2 ^ 1024) = 1024 * ln 2).
     { rewrite ln_pow by lra. replace (INR 1024) with 1024 by (rewrite INR_IZR_INZ; reflexivity). reflexivity. }
     split.
     - assert (H : ln (/ 2 ^ 1024) <= ln (Q2R (D2Q x))).
-      { apply ln_le; [apply Rinv_0_lt_compat, pow_lt; lra | apply Hx]. }
+      { apply ln_le'; [apply Rinv_0_lt_compat, pow_lt; lra | apply Hx]. }
       rewrite ln_Rinv in H by (apply pow_lt; lra). lra.
-    - assert (H : ln (Q2R (D2Q x)) <= ln (2 ^ 1024)) by (apply ln_le; [exact Hpos | apply Hx]). lra. }
+    - assert (H : ln (Q2R (D2Q x)) <= ln (2 ^ 1024)) by (apply ln_le'; [exact Hpos | apply Hx]). lra. }
   set (L := ln (Q2R (D2Q x))) in *. set (q := Q2R (Qln (D2Q x))) in *. set (r := Q2R (D2Q (nln x))) in *.
   apply Rabs_le_iff in H1.
   assert (Hq : Rabs q <= 711).
@@ -291,3 +310,32 @@ Proof.
 Qed.
 
 (** relative form of the rounding part, for reporting: |nln x - Qln x| <= 2^-127 |Qln x| is NumDTrans.NumD_nln_rounding *)
+
+(** the rational constant [Qln2] *)
+Theorem Qln2_spec : Rabs (Q2R Qln2 - ln 2) <= 45 / 2 ^ 160.
+Proof. unfold Qln2. rewrite Q2R_of_fix, <- U_val. exact fln2_spec. Qed.
+
+(** relative form, away from 1: wherever |ln x| >= 2^-44 (e.g. |x - 1| >= 2^-43) the relative error is <= 2^-100 *)
+Theorem Qln_relative_away : forall x : Q, (/ inject_Z (2 ^ 1024) <= x)%Q -> (x <= inject_Z (2 ^ 1024))%Q ->
+  / 2 ^ 44 <= Rabs (ln (Q2R x)) -> Rabs (Q2R (Qln x) - ln (Q2R x)) <= Rabs (ln (Q2R x)) / 2 ^ 100.
+Proof.
+  intros x Hlo Hhi Haway. eapply Rle_trans; [apply (Qln_spec x Hlo Hhi) |].
+  assert (H : / 2 ^ 144 = / 2 ^ 44 / 2 ^ 100) by (unfold Rdiv; rewrite <- Rinv_mult; f_equal; lra).
+  rewrite H. unfold Rdiv. apply Rmult_le_compat_r; [| exact Haway].
+  left. apply Rinv_0_lt_compat, pow_lt. lra.
+Qed.
+
+(** sharper form: the Qln error plus one relative rounding of the result *)
+Theorem NumD_nln_spec_rel : forall x : D,
+  (/ inject_Z (2 ^ 1024) <= D2Q x)%Q -> (D2Q x <= inject_Z (2 ^ 1024))%Q ->
+  Rabs (Q2R (D2Q (nln x)) - ln (Q2R (D2Q x))) <= / 2 ^ 144 + / 2 ^ 127 * (Rabs (ln (Q2R (D2Q x))) + / 2 ^ 144).
+Proof.
+  intros x Hlo Hhi. pose proof (Qln_spec (D2Q x) Hlo Hhi) as H1. pose proof (NumD_nln_rounding x) as H2.
+  apply Qle_Rle in H2. rewrite Q2R_mult, !Q2R_Qabs, Q2R_minus, Q2R_uD in H2.
+  set (L := ln (Q2R (D2Q x))) in *. set (q := Q2R (Qln (D2Q x))) in *. set (r := Q2R (D2Q (nln x))) in *.
+  assert (Hq : Rabs q <= Rabs L + / 2 ^ 144).
+  { replace q with (L + (q - L)) by ring. eapply Rle_trans; [apply Rabs_triang |]. lra. }
+  assert (H3 : / 2 ^ 127 * Rabs q <= / 2 ^ 127 * (Rabs L + / 2 ^ 144)) by (apply Rmult_le_compat_l; lra).
+  replace (r - L) with ((r - q) + (q - L)) by ring.
+  eapply Rle_trans; [apply Rabs_triang |]. lra.
+Qed.
